@@ -193,3 +193,31 @@ def covered_by(iv, covers):
 
 def positive_overlap(a, b):
     return min(a[1], b[1]) - max(a[0], b[0]) > 0
+
+
+# ---------------------------------------------------------------------------
+# exhaustive small scopes
+
+
+def all_layouts(grid, max_n, distinct_starts=False, min_start=0):
+    """Every time-sorted, internally non-overlapping list of at most max_n closed intervals with integer
+    edges in [0, grid] (touching and zero-length allowed), as lists of (start, end)."""
+    out = [[]]
+
+    def rec(prefix, t, last_start):
+        if len(prefix) == max_n:
+            return
+        for s in range(t, grid + 1):
+            if distinct_starts and s == last_start:
+                continue
+            for e in range(s, grid + 1):
+                cur = prefix + [(s, e)]
+                out.append(cur)
+                rec(cur, e, s)
+
+    rec([], min_start, None)
+    return out
+
+
+def shard(seq, i, n):
+    return seq[i::n]
